@@ -80,8 +80,10 @@ def main(tier, replay=None):
     hist = C08.split_histories(impl)
     st, bad = C08.evaluate(c, mo, hist, exe)
 
-    # the model must call the dropped task of the directed scenario by its name
-    abandon_seen = any(l.split("\t")[0] == "M" and l.split("\t")[6] == "abandon" for l in mo.splitlines() if l.startswith("M\t8"))
+    # the witness of C07_import_abandoned_refuted: on the directed scenario the model of the code AS FOUND
+    # must drop the import task
+    rc, mu, me = V.sh("%s %d %d unfixed < %s" % (exe, batch, cap, impl), timeout=3000)
+    abandon_seen = rc == 0 and any(l.split("\t")[0] == "M" and l.split("\t")[6] == "abandon" for l in mu.splitlines() if l.startswith("M\t8"))
     twins = sum(1 for l in mo.splitlines() if l.startswith("C\t") and "twin-equals-original" in l)
     multi = sum(1 for l in mo.splitlines() if l.startswith("M\t") and l.split("\t")[5].startswith("importing:") and l.split("\t")[4] == "ok")
 
@@ -116,7 +118,7 @@ def main(tier, replay=None):
                      "payments during and after the import go to addresses the twin discovered (an address the original issued but the chain never paid is not derived by a restore: C12's subject)",
                      "spent-by-pending flags and pending staking/binding rows are not compared between twin and original (the original remembers reorganised-away transactions)"]
     if not replay and not abandon_seen and not c.violations:
-        brk = "the directed scenario no longer makes the model drop the import task (C07_import_abandoned_refuted's witness)"
+        brk = "the directed scenario no longer makes the model of the code as found drop the import task (C07_import_abandoned_refuted's witness)"
     if not proofs_ok and not c.violations and not brk:
         brk = "proof obligations of Properties/C07.v no longer check: " + str(c.proof_break)
     return c.finish(TRUSTED, no_input_break=brk)
